@@ -13,6 +13,7 @@ import "sync/atomic"
 //	4 collectConflictsBetweenFragments          bodies executed after the memo check
 //	5 collectConflictsBetweenFieldsAndFragment  calls
 //	6 collectConflictsBetweenFragments          calls
+//	7 NoFragmentCyclesRule detectCycleRecursive calls (fragments descended into)
 var VerifCounters [8]int64
 
 func verifCount(i int) { atomic.AddInt64(&VerifCounters[i], 1) }
